@@ -582,8 +582,13 @@ Definition lay (f : frame) (j : nat) : layer := nth j (frame_chain f) dummy_laye
 Definition codes (f : frame) : list N := map (fun x => layer_code (fst x)) (frame_layers f).
 Definition layers_ok (m : msg) (f : frame) : Prop :=
   exists k, mgetLI m cLayerStack = firstn k (codes f) /\ length (mgetLI m cLayerSize) = length (mgetLI m cLayerStack).
+(* every column written by a header that lies COMPLETELY inside the first n bytes has the complete frame's value *)
+Definition complete_ok (m0 m : msg) (f : frame) (n : nat) : Prop :=
+  forall j k, (j <= length (frame_chain f))%nat -> (length (hdrs f j) <= n)%nat ->
+    In k (fkeys (applied false (firstn j (frame_chain f)))) ->
+    alookup (cols m) k = alookup (cols (framed m0 f)) k.
 Definition cut_ok (m0 : msg) (f : frame) (data : bytes) : Prop :=
-  exists m, parse_packet empty_pcfg m0 data = Ok m /\ cols_ok m0 m f /\ layers_ok m f.
+  exists m, parse_packet empty_pcfg m0 data = Ok m /\ cols_ok m0 m f /\ layers_ok m f /\ complete_ok m0 m f (length data).
 
 Definition lsig (l : layer) : parser * N := (lp l, lenN (lhdr l)).
 Lemma run_layers_ls q : forall e b ls e' b' ls',
@@ -683,19 +688,161 @@ Proof.
   cbn [map concat]. rewrite <- app_assoc. apply peek_cut; assumption.
 Qed.
 
+(* ---- headers completely inside the capture ---- *)
+Lemma contracts_nonempty layers : forall rest, contracts layers rest ->
+  Forall (fun l => (1 <= length (lhdr l))%nat /\ keys_ok (lasg l)) layers.
+Proof.
+  induction layers as [|l r IH]; intros rest H; [apply Forall_nil|]. cbn [contracts] in H. destruct H as [Hc Hr].
+  destruct (Hc _ eq_refl) as (Hk & _ & (Hl & _) & _). apply Forall_cons; [|eapply IH; exact Hr].
+  split; [unfold lenN in Hl; lia|exact Hk].
+Qed.
+
+Lemma hdrs_lt f j1 j2 : wf_frame f = true -> (j1 < j2 <= length (frame_chain f))%nat ->
+  (length (hdrs f j1) < length (hdrs f j2))%nat.
+Proof.
+  intros Hwf H. pose proof (contracts_nonempty _ _ (frame_contracts f Hwf)) as Hne. rewrite Forall_forall in Hne.
+  assert (G : forall d, (j1 + S d <= length (frame_chain f))%nat -> (length (hdrs f j1) < length (hdrs f (j1 + S d)))%nat).
+  { induction d as [|d IH]; intros Hd.
+    - replace (j1 + 1)%nat with (S j1) by lia. rewrite hdrs_S by lia. rewrite app_length.
+      destruct (Hne (lay f j1)) as [H1 _]; [apply nth_In; lia|lia].
+    - replace (j1 + S (S d))%nat with (S (j1 + S d)) by lia. rewrite hdrs_S by lia. rewrite app_length.
+      specialize (IH ltac:(lia)). lia. }
+  replace j2 with (j1 + S (j2 - j1 - 1))%nat by lia. apply G. lia.
+Qed.
+
+Lemma applied_firstn_incl (q : list layer) j1 j2 k : (j1 <= j2)%nat ->
+  In k (fkeys (applied false (firstn j1 q))) -> In k (fkeys (applied false (firstn j2 q))).
+Proof.
+  intros H Hin. rewrite <- (firstn_skipn j1 (firstn j2 q)). rewrite firstn_firstn. replace (Nat.min j1 j2) with j1 by lia.
+  rewrite applied_app, fkeys_app. apply in_or_app. left. exact Hin.
+Qed.
+
+Lemma applied_keys_ok q : Forall (fun l => keys_ok (lasg l)) q -> forall e k, In k (map fst (applied e q)) ->
+  k <> cLayerStack /\ k <> cLayerSize.
+Proof.
+  intros Hq e k Hin. apply in_map_iff in Hin. destruct Hin as (kv & <- & Hkv). apply applied_incl in Hkv.
+  apply in_flat_map in Hkv. destruct Hkv as (l & Hl & Hkv). rewrite Forall_forall in Hq. specialize (Hq l Hl).
+  unfold keys_ok in Hq. rewrite Forall_forall in Hq. apply Hq. exact Hkv.
+Qed.
+
+Lemma frame_keys_ok f : wf_frame f = true -> Forall (fun l => keys_ok (lasg l)) (frame_chain f).
+Proof.
+  intros Hwf. pose proof (contracts_nonempty _ _ (frame_contracts f Hwf)) as H. rewrite Forall_forall in *.
+  intros l Hl. apply H. exact Hl.
+Qed.
+
+Lemma firstn_keys_ok f j : wf_frame f = true -> Forall (fun l => keys_ok (lasg l)) (firstn j (frame_chain f)).
+Proof.
+  intros Hwf. pose proof (frame_keys_ok f Hwf) as H. rewrite Forall_forall in *. intros l Hl. apply H. eapply in_firstn. exact Hl.
+Qed.
+
+(* a run of the first j' headers: whatever one of them wrote (outside a tunnel) is what the complete frame has *)
+Lemma stop_complete m0 f j' e b ls m : wf_frame f = true -> base_ok m0 ->
+  run_layers false m0 [] (firstn j' (frame_chain f)) = Some (e, b, ls) -> others_eq m b ->
+  forall j k, (j <= j')%nat -> In k (fkeys (applied false (firstn j (frame_chain f)))) ->
+    alookup (cols m) k = alookup (cols (framed m0 f)) k.
+Proof.
+  intros Hwf (_ & _ & Hrh) Hrun [Ho _] j k Hjj Hin.
+  apply (applied_firstn_incl _ j j' k Hjj) in Hin.
+  pose proof Hin as Hin'. apply fkeys_in in Hin'. destruct Hin' as [Hok Hmap].
+  destruct (applied_keys_ok _ (firstn_keys_ok f j' Hwf) false k Hmap) as [K3 K4].
+  rewrite Ho by assumption.
+  destruct (frame_run_on m0 f Hwf Hrh) as (e0 & b0 & R0 & O0).
+  pose proof (frame_applied_nodup f Hwf) as Hnd.
+  rewrite <- (firstn_skipn j' (frame_chain f)) in R0, Hnd.
+  rewrite applied_app, fkeys_app in Hnd. apply nodup_app in Hnd. destruct Hnd as (_ & _ & Hd).
+  apply run_layers_applied in Hrun. destruct Hrun as [Hb _].
+  apply run_layers_applied in R0. destruct R0 as [Hb0 _]. rewrite applied_app, assign_app, <- Hb in Hb0.
+  assert (Href : alookup (cols b0) k = alookup (cols (framed m0 f)) k).
+  { destruct O0 as [O0 _]. rewrite O0 by assumption. unfold framed. rewrite !alookup_mset.
+    destruct (N.eqb_spec cLayerSize k); [congruence|]. destruct (N.eqb_spec cLayerStack k); [congruence|]. reflexivity. }
+  rewrite <- Href, Hb0. rewrite assign_notin; [reflexivity|].
+  intros Hs. apply (Hd k Hin). apply fkeys_in. split; assumption.
+Qed.
+
+Definition full_asg (A L : list (N * pval)) : Prop := forall k v, In (k, v) L -> okk k = true -> In (k, v) A.
+
+(* ... and the same after one more header of which the capture holds enough for its parser; when the capture holds
+   that header completely and the parser wrote all its columns (full_asg), the header counts as well *)
+Lemma step_complete m0 f j' A e b ls m : wf_frame f = true -> base_ok m0 -> (j' < length (frame_chain f))%nat ->
+  run_layers false m0 [] (firstn j' (frame_chain f)) = Some (e, b, ls) ->
+  sub_asg A (lasg (lay f j')) -> others_eq m (if e then b else assign A b) ->
+  forall j k, ((j <= j')%nat \/ (j = S j' /\ full_asg A (lasg (lay f j')))) ->
+    In k (fkeys (applied false (firstn j (frame_chain f)))) ->
+    alookup (cols m) k = alookup (cols (framed m0 f)) k.
+Proof.
+  intros Hwf Hbase Hj' Hrun [HndA HA] [Ho Hu] j k Hcase Hin.
+  pose proof Hbase as (_ & _ & Hrh).
+  destruct (frame_run_on m0 f Hwf Hrh) as (e0 & b0 & R0 & O0).
+  pose proof (frame_applied_nodup f Hwf) as Hnd.
+  rewrite (nth_split (frame_chain f) j' dummy_layer Hj') in R0, Hnd. fold (lay f j') in R0, Hnd.
+  pose proof Hrun as Hrun'. apply run_layers_applied in Hrun'. destruct Hrun' as [Hbb He].
+  apply run_layers_applied in R0. destruct R0 as [Hb0 _].
+  rewrite applied_app in Hb0, Hnd. rewrite <- He in Hb0, Hnd. cbn [applied] in Hb0, Hnd.
+  rewrite !assign_app in Hb0. rewrite <- Hbb in Hb0.
+  rewrite !fkeys_app in Hnd. apply nodup_app in Hnd. destruct Hnd as (_ & Hnd2 & Hd1).
+  apply nodup_app in Hnd2. destruct Hnd2 as (HndL & _ & Hd2).
+  (* k is written by one of the first j' headers, or by header j' itself *)
+  assert (Hwhere : In k (fkeys (applied false (firstn j' (frame_chain f)))) \/
+                   (e = false /\ full_asg A (lasg (lay f j')) /\ In k (fkeys (lasg (lay f j'))))).
+  { destruct Hcase as [Hle|[-> Hfull]]; [left; eapply applied_firstn_incl; eassumption|].
+    rewrite (firstn_S_nth _ j' dummy_layer Hj') in Hin. fold (lay f j') in Hin.
+    rewrite applied_app, fkeys_app in Hin. rewrite <- He in Hin. cbn [applied] in Hin. rewrite app_nil_r in Hin.
+    apply in_app_or in Hin. destruct Hin as [Hin|Hin]; [left; exact Hin|]. right.
+    destruct e; [cbn in Hin; destruct Hin|]. repeat split; assumption. }
+  assert (Hks : k <> cLayerStack /\ k <> cLayerSize).
+  { apply fkeys_in in Hin. destruct Hin as [_ Hmap]. eapply (applied_keys_ok _ (firstn_keys_ok f j Hwf)). exact Hmap. }
+  destruct Hks as [K3 K4].
+  assert (Href : alookup (cols b0) k = alookup (cols (framed m0 f)) k).
+  { destruct O0 as [O0 _]. rewrite O0 by assumption. unfold framed. rewrite !alookup_mset.
+    destruct (N.eqb_spec cLayerSize k); [congruence|]. destruct (N.eqb_spec cLayerStack k); [congruence|]. reflexivity. }
+  rewrite Ho by assumption. rewrite <- Href, Hb0.
+  destruct Hwhere as [Hp|(-> & Hfull & Hl)].
+  - (* written in front of header j' *)
+    pose proof Hp as Hp'. apply fkeys_in in Hp'. destruct Hp' as [Hok _].
+    assert (HnS : ~ In k (map fst (applied (encap_next e (lp (lay f j')) (lnext (lay f j'))) (skipn (S j') (frame_chain f))))).
+    { intros Hs. apply (Hd1 k Hp). apply in_or_app. right. apply fkeys_in. split; assumption. }
+    assert (HnL : ~ In k (map fst (if e then [] else lasg (lay f j')))).
+    { intros Hs. apply (Hd1 k Hp). apply in_or_app. left. apply fkeys_in. split; assumption. }
+    rewrite (assign_notin _ _ k HnS), (assign_notin _ _ k HnL).
+    destruct e; [reflexivity|]. rewrite assign_notin; [reflexivity|].
+    intros Ha. apply in_map_iff in Ha. destruct Ha as ([k0 v] & Hk0 & Ha). cbn [fst] in Hk0. subst k0.
+    destruct (HA k v Ha) as (_ & v' & Hin' & _). apply HnL. apply in_map_iff. exists (k, v'). split; [reflexivity|exact Hin'].
+  - (* written by header j', which the capture holds completely *)
+    pose proof Hl as Hl'. apply fkeys_in in Hl'. destruct Hl' as [Hok Hmap].
+    apply in_map_iff in Hmap. destruct Hmap as ([k0 v'] & Hk0 & Hin'). cbn [fst] in Hk0. subst k0.
+    assert (HnS : ~ In k (map fst (applied (encap_next false (lp (lay f j')) (lnext (lay f j'))) (skipn (S j') (frame_chain f))))).
+    { intros Hs. apply (Hd2 k Hl). apply fkeys_in. split; assumption. }
+    rewrite (assign_notin _ _ k HnS).
+    rewrite (assign_in_once (lasg (lay f j')) b k v' Hin' HndL Hok).
+    apply (assign_in_once A b k v'); [apply Hfull; assumption|exact HndA|exact Hok].
+Qed.
+
+Lemma hdrs_bound f j j2 n : wf_frame f = true -> (j < length (frame_chain f))%nat -> (j2 <= length (frame_chain f))%nat ->
+  (length (hdrs f j2) <= n)%nat -> (n < length (hdrs f (S j)))%nat -> (j2 <= j)%nat.
+Proof.
+  intros Hwf Hj Hj2 Hle Hlt. destruct (Nat.le_gt_cases j2 j) as [H|H]; [exact H|exfalso].
+  destruct (Nat.eq_dec j2 (S j)) as [->|Hne]; [lia|].
+  pose proof (hdrs_lt f (S j) j2 Hwf ltac:(lia)). lia.
+Qed.
+
 (* ---- the three ways a capture can end ---- *)
 Lemma case_short m0 f j c : wf_frame f = true -> base_ok m0 -> (j < length (frame_chain f))%nat ->
-  (1 <= c < min_len (lp (lay f j)))%nat -> (c <= length (lhdr (lay f j)))%nat ->
+  (1 <= c < min_len (lp (lay f j)))%nat -> (c < length (lhdr (lay f j)))%nat ->
   cut_ok m0 f (hdrs f j ++ firstn c (lhdr (lay f j))).
 Proof.
-  intros Hwf Hbase Hj Hc Hl.
+  intros Hwf Hbase Hj Hc Hl'. assert (Hl : (c <= length (lhdr (lay f j)))%nat) by lia.
   destruct (frame_prefix_run m0 f j Hwf Hbase) as (e & b & ls & Hrun).
   destruct (frame_chained f Hwf) as [Hch _].
   assert (Hne : lhdr (lay f j) <> []) by (intros E; rewrite E in Hl; cbn in Hl; lia).
   pose proof (frame_prefix_contracts f j c Hwf Hj ltac:(lia) Hne) as Hct.
   destruct (cut_stop m0 (firstn j (frame_chain f)) (firstn c (lhdr (lay f j))) e b ls Hbase (chained_firstn _ j _ Hch) Hct Hrun) as (m & Hp & Hinv).
   - right. rewrite (last_next_firstn _ j _ Hch Hj). fold (lay f j). rewrite firstn_length. lia.
-  - exists m. split; [exact Hp|]. split; [eapply stop_columns; eassumption|eapply stop_layers; eassumption].
+  - exists m. split; [exact Hp|]. split; [eapply stop_columns; eassumption|]. split; [eapply stop_layers; eassumption|].
+    intros j2 k Hj2 Hlen Hin. destruct Hinv as (_ & _ & Ho).
+    apply (stop_complete m0 f j e b ls m Hwf Hbase Hrun Ho j2 k); [|exact Hin].
+    apply (hdrs_bound f j j2 (length (hdrs f j ++ firstn c (lhdr (lay f j)))) Hwf Hj Hj2 Hlen).
+    rewrite hdrs_S by exact Hj. rewrite !app_length, firstn_length. lia.
 Qed.
 
 Lemma case_full m0 f j : wf_frame f = true -> base_ok m0 -> (j < length (frame_chain f))%nat ->
@@ -711,16 +858,34 @@ Proof.
   destruct (cut_stop m0 (firstn (S j) (frame_chain f)) x e b ls Hbase (chained_firstn _ (S j) _ Hch) Hct Hrun) as (m & Hp & Hinv).
   - rewrite (last_next_firstn_S _ j _ Hch Hj). fold (lay f j).
     destruct Hx as [->|Hx]; [|left; exact Hx]. destruct Hn as [Hn|Hn]; [left; exact Hn|right; cbn [length]; exact Hn].
-  - exists m. split; [exact Hp|]. split; [eapply stop_columns; eassumption|eapply stop_layers; eassumption].
+  - exists m. split; [exact Hp|]. split; [eapply stop_columns; eassumption|]. split; [eapply stop_layers; eassumption|].
+    intros j2 k Hj2 Hlen Hin. destruct Hinv as (_ & _ & Ho).
+    destruct (Nat.le_gt_cases j2 (S j)) as [Hle|Hgt]; [apply (stop_complete m0 f (S j) e b ls m Hwf Hbase Hrun Ho j2 k Hle Hin)|].
+    (* a header behind header j: only when header j is the last one and x is what follows the headers *)
+    destruct Hx as [->|Hx].
+    + exfalso. rewrite app_nil_r in Hlen. pose proof (hdrs_lt f (S j) j2 Hwf ltac:(lia)). lia.
+    + exfalso. pose proof (hdrs_lt f (S j) j2 Hwf ltac:(lia)) as Hlt.
+      (* header j is followed by another header, whose parser is named by lnext: not PNone *)
+      assert (Hsj : (S j < length (frame_chain f))%nat) by lia.
+      pose proof (last_next_firstn_S _ j _ Hch Hj) as E1. pose proof (last_next_firstn _ (S j) _ Hch Hsj) as E2.
+      rewrite E1 in E2. fold (lay f j) in E2. rewrite Hx in E2.
+      pose proof (contracts_nonempty _ _ (frame_contracts f Hwf)) as Hne. rewrite Forall_forall in Hne.
+      pose proof (frame_contracts f Hwf) as Hc.
+      assert (Hlp : lp (nth (S j) (frame_chain f) dummy_layer) <> PNone).
+      { clear -Hc Hsj. revert Hsj. generalize (S j). generalize (frame_rest f) Hc. generalize (frame_chain f).
+        induction l as [|x r IH]; intros rest Hct i Hi; [cbn in Hi; lia|]. cbn [contracts] in Hct. destruct Hct as [Hx Hr].
+        destruct i; [cbn [nth]; destruct (Hx _ eq_refl) as (_ & Hp & _); exact Hp|]. cbn [nth]. apply (IH rest Hr). cbn in Hi. lia. }
+      congruence.
 Qed.
 
 Lemma case_step m0 f j cut A size nx needs : wf_frame f = true -> base_ok m0 -> (j < length (frame_chain f))%nat ->
   contracts (firstn j (frame_chain f)) cut ->
   step_contract (lp (lay f j)) cut A size nx needs -> (needs = true -> lneeds (lay f j) = true) ->
   (nx = PNone \/ lenN cut < size) -> sub_asg A (lasg (lay f j)) ->
+  ((length cut < length (lhdr (lay f j)))%nat \/ (length cut = length (lhdr (lay f j)) /\ full_asg A (lasg (lay f j)))) ->
   cut_ok m0 f (hdrs f j ++ cut).
 Proof.
-  intros Hwf Hbase Hj Hct Hstep Hnd Hend Hsub.
+  intros Hwf Hbase Hj Hct Hstep Hnd Hend Hsub Hwhole.
   destruct (frame_prefix_run m0 f j Hwf Hbase) as (e & b & ls & Hrun).
   destruct (frame_chained f Hwf) as [Hch _].
   pose proof (last_next_firstn _ j _ Hch Hj) as Hp. fold (lay f j) in Hp.
@@ -728,9 +893,18 @@ Proof.
   - rewrite Hp. exact Hstep.
   - intros H1 H2. eapply frame_needs; eauto.
   - exact Hend.
-  - exists m. split; [exact Hpp|]. split.
+  - exists m. split; [exact Hpp|]. split; [|split].
     + destruct Hinv as (_ & _ & Ho). eapply step_columns; eauto.
     + rewrite Hp in Hinv. eapply step_layers; eauto.
+    + intros j2 k Hj2 Hlen Hin. destruct Hinv as (_ & _ & Ho).
+      apply (step_complete m0 f j A e b ls m Hwf Hbase Hj Hrun Hsub Ho j2 k); [|exact Hin].
+      rewrite app_length in Hlen.
+      destruct Hwhole as [Hshort|[Heq Hfull]].
+      * left. apply (hdrs_bound f j j2 (length (hdrs f j) + length cut) Hwf Hj Hj2 Hlen).
+        rewrite hdrs_S by exact Hj. rewrite app_length. lia.
+      * destruct (Nat.le_gt_cases j2 j) as [Hle|Hgt]; [left; exact Hle|right]. split; [|exact Hfull].
+        destruct (Nat.eq_dec j2 (S j)) as [->|Hne]; [reflexivity|exfalso].
+        pose proof (hdrs_lt f (S j) j2 Hwf ltac:(lia)) as Hlt. rewrite hdrs_S in Hlt by exact Hj. rewrite app_length in Hlt. lia.
 Qed.
 
 Ltac Zify.zify_post_hook ::= Z.div_mod_to_equations.
@@ -777,6 +951,8 @@ Proof.
     + left; reflexivity.
     + rewrite El. cbn [mpls_layer mk lasg]. split; [apply nodupb_ok; reflexivity|].
       intros k v [H|[H|[]]]; inversion H; subst; (split; [reflexivity|]); eexists; (split; [|left; reflexivity]); cbn; tauto.
+    + right. split; [rewrite Hh; reflexivity|]. rewrite El. cbn [mpls_layer mk lasg]. intros k v Hin Hok.
+      destruct Hin as [H|[H|[H|[]]]]; inversion H; subst; [discriminate Hok|left; reflexivity|right; left; reflexivity].
   - (* k complete entries, 1 <= k < n, and r < 4 bytes of the next one *)
     set (k := (c / 4)%nat). set (r := (c mod 4)%nat).
     assert (Hk : (1 <= k < length ls)%nat) by (unfold k; lia).
@@ -798,6 +974,7 @@ Proof.
       * cbn [vprefix]. exists k. symmetry. apply firstn_map.
       * right; right; left; reflexivity.
       * cbn [vprefix]. exists k. symmetry. apply firstn_map.
+    + left. rewrite Hh, <- Hcut, firstn_length. lia.
 Qed.
 
 (* ---- SRv6 ---- *)
@@ -856,6 +1033,7 @@ Proof.
       intros k0 v [H|[H|[]]]; inversion H; subst; (split; [reflexivity|]); eexists.
       * split; [left; reflexivity|left; reflexivity].
       * split; [right; left; reflexivity|right]. cbn [vprefix]. exists k. reflexivity.
+    + left. rewrite Hh, <- Hcut, firstn_length. lia.
 Qed.
 
 (* ---- TCP, ICMP ---- *)
@@ -867,6 +1045,8 @@ Proof.
   intros Hwf Hbase Hj El Hs Hd Ho Hc.
   assert (Hh : lhdr (lay f j) = enc_l4 (L4TCP sp dp fl ow)) by (rewrite El; reflexivity).
   assert (Hlp : lp (lay f j) = PTCP) by (rewrite El; reflexivity).
+  assert (Hlen : length (enc_l4 (L4TCP sp dp fl ow)) = (20 + N.to_nat (4 * ow))%nat)
+    by (rewrite enc_tcp_split, app_length, tcp20_len, repeat_length; reflexivity).
   destruct (Nat.lt_ge_cases c 20) as [Hlt|Hge].
   { rewrite <- Hh. apply case_short; try assumption; rewrite ?Hlp, ?Hh; cbn [min_len]; lia. }
   assert (Hct : contracts (firstn j (frame_chain f)) (firstn c (enc_l4 (L4TCP sp dp fl ow)))).
@@ -879,6 +1059,9 @@ Proof.
   - discriminate.
   - left; reflexivity.
   - rewrite El. cbn [mk lasg]. apply sub_asg_refl; [apply nodupb_ok; reflexivity|repeat constructor].
+  - destruct (Nat.eq_dec c (length (enc_l4 (L4TCP sp dp fl ow)))) as [Hfull|Hpart].
+    + right. split; [rewrite Hh, <- Hcut, firstn_length; lia|]. rewrite El. cbn [mk lasg]. intros k v Hin _. exact Hin.
+    + left. rewrite Hh, <- Hcut, firstn_length. lia.
 Qed.
 
 Lemma kind_icmp m0 f j c (six : bool) t c0 : wf_frame f = true -> base_ok m0 -> (j < length (frame_chain f))%nat ->
@@ -898,6 +1081,10 @@ Proof.
   - discriminate.
   - left; reflexivity.
   - rewrite El. cbn [mk lasg]. apply sub_asg_refl; [apply nodupb_ok; reflexivity|repeat constructor].
+  - assert (Hl8 : length (lhdr (lay f j)) = 8%nat) by (rewrite El; reflexivity).
+    destruct (Nat.eq_dec c' 6) as [->|Hne].
+    + right. split; [rewrite Hl8; reflexivity|]. rewrite El. cbn [mk lasg]. intros k v Hin _. exact Hin.
+    + left. rewrite Hl8. cbn [length]. rewrite firstn_length. lia.
 Qed.
 
 (* ---- where a capture length falls ---- *)
@@ -937,7 +1124,10 @@ Proof.
   { (* nothing captured *)
     cbn [firstn].
     destruct (cut_stop m0 [] [] false m0 [] Hbase I I eq_refl) as (m & Hp & Hinv); [right; cbn; lia|].
-    exists m. split; [exact Hp|]. split; [apply (stop_columns m0 f 0 false m0 [] m Hwf Hbase eq_refl Hinv)|apply (stop_layers m0 f 0 false m0 [] m Hwf eq_refl Hinv)]. }
+    exists m. split; [exact Hp|]. split; [apply (stop_columns m0 f 0 false m0 [] m Hwf Hbase eq_refl Hinv)|].
+    split; [apply (stop_layers m0 f 0 false m0 [] m Hwf eq_refl Hinv)|].
+    intros j2 k Hj2 Hlen Hin. cbn [length] in Hlen.
+    destruct j2 as [|j2]; [destruct Hin|]. exfalso. pose proof (hdrs_lt f 0 (S j2) Hwf ltac:(lia)). lia. }
   destruct (Nat.le_gt_cases n (length H)) as [Hle|Hgt].
   - (* the capture ends inside or at the end of header j *)
     destruct (cut_position (frame_chain f) n ltac:(fold H; lia)) as (j & c & Hj & Hc & En).
@@ -977,9 +1167,13 @@ Proof. rewrite ref_frame_pre. reflexivity. Qed.
 Theorem any_cut f n : wf_frame f = true ->
   exists m, parse_packet empty_pcfg empty_msg (firstn n (encode_frame f)) = Ok m /\
     (forall k, k <> cEtype -> k <> cVlanId -> k <> cLayerStack -> k <> cLayerSize ->
-       col_ok None (alookup (cols m) k) (alookup (cols (ref_frame f)) k)) /\ layers_ok m f.
+       col_ok None (alookup (cols m) k) (alookup (cols (ref_frame f)) k)) /\ layers_ok m f /\
+    (forall j k, (j <= length (frame_chain f))%nat -> (length (hdrs f j) <= length (firstn n (encode_frame f)))%nat ->
+       In k (fkeys (applied false (firstn j (frame_chain f)))) ->
+       alookup (cols m) k = alookup (cols (ref_frame f)) k).
 Proof.
-  intros Hwf. destruct (any_cut_on empty_msg f n Hwf base_empty) as (m & Hp & Hc & Hl).
-  exists m. split; [exact Hp|]. split; [|exact Hl]. intros k K1 K2 K3 K4.
-  specialize (Hc k K1 K2 K3 K4). rewrite framed_empty in Hc. exact Hc.
+  intros Hwf. destruct (any_cut_on empty_msg f n Hwf base_empty) as (m & Hp & Hc & Hl & Hk).
+  exists m. split; [exact Hp|]. split; [|split; [exact Hl|]].
+  - intros k K1 K2 K3 K4. specialize (Hc k K1 K2 K3 K4). rewrite framed_empty in Hc. exact Hc.
+  - intros j k Hj Hlen Hin. rewrite <- framed_empty. apply (Hk j k Hj Hlen Hin).
 Qed.
